@@ -289,6 +289,20 @@ func extractFacts(repo string) (string, error) {
 		{"failsafegrpc/client.go", "", "NewUnaryClientInterceptorWithExecutor"}, {"failsafegrpc/server.go", "", "NewUnaryServerInterceptorWithExecutor"},
 		{"failsafegrpc/server.go", "", "NewServerInHandleWithExecutor"},
 		{"timeout/timeout.go", "config", "Build"}, {"fallback/fallback.go", "config", "Build"},
+		// the glue around the modelled cores: the rate limiter's public methods, the future's getters, ExceededError, condition registration
+		{"ratelimiter/ratelimiter.go", "rateLimiter", "AcquirePermit"}, {"ratelimiter/ratelimiter.go", "rateLimiter", "AcquirePermitWithMaxWait"},
+		{"ratelimiter/ratelimiter.go", "rateLimiter", "AcquirePermitsWithMaxWait"}, {"ratelimiter/ratelimiter.go", "rateLimiter", "AcquirePermits"},
+		{"ratelimiter/ratelimiter.go", "rateLimiter", "ReservePermit"}, {"ratelimiter/ratelimiter.go", "rateLimiter", "ReservePermits"},
+		{"ratelimiter/ratelimiter.go", "rateLimiter", "TryAcquirePermit"}, {"ratelimiter/ratelimiter.go", "rateLimiter", "TryAcquirePermits"},
+		{"ratelimiter/ratelimiter.go", "rateLimiter", "TryReservePermit"}, {"ratelimiter/ratelimiter.go", "rateLimiter", "TryReservePermits"},
+		{"ratelimiter/ratelimiter.go", "rateLimiter", "Reset"}, {"ratelimiter/ratelimiterstats.go", "smoothStats", "reset"},
+		{"ratelimiter/ratelimiterstats.go", "burstyStats", "reset"},
+		{"result.go", "executionResult", "Done"}, {"result.go", "executionResult", "IsDone"}, {"result.go", "executionResult", "Result"},
+		{"result.go", "executionResult", "Error"},
+		{"retrypolicy/retry.go", "ExceededError", "Error"}, {"retrypolicy/retry.go", "ExceededError", "Is"}, {"retrypolicy/retry.go", "ExceededError", "Unwrap"},
+		{"policy/policy.go", "BaseFailurePolicy", "HandleIf"}, {"policy/policy.go", "BaseAbortablePolicy", "AbortOnErrorTypes"},
+		{"policy/policy.go", "BaseAbortablePolicy", "AbortIf"}, {"policy/policy.go", "BaseAbortablePolicy", "IsConfigured"},
+		{"internal/util/util.go", "", "ErrorTypesMatch"}, {"internal/util/util.go", "", "errorAs"}, {"internal/util/util.go", "", "AppliesToAny"},
 		// the breaker's small state and statistics functions the sequential breaker model transcribes
 		{"circuitbreaker/circuitstats.go", "countingStats", "recordFailure"}, {"circuitbreaker/circuitstats.go", "countingStats", "recordSuccess"},
 		{"circuitbreaker/circuitstats.go", "countingStats", "reset"}, {"circuitbreaker/circuitstats.go", "timedStats", "recordFailure"},
